@@ -387,7 +387,7 @@ def exh_worker(job):
     files, start, stride = job
     res, bad, runs = [], [], 0
     for i, f in enumerate(files):
-        # quick tier: the model tie uses every third block length per file (rotating); the oracle below uses all
+        # quick tier: the model tie uses every fourth block length per file (rotating); the oracle below uses all
         blks = [b for b in BLKS if b == NOBLK or (b + start + i) % stride == 0]
         er = [r_family(f, b) for b in blks]
         ed = [d_family(f, b) for b in blks]
@@ -614,7 +614,7 @@ def run(ctx):
     MODS = ["Base.PyZ", "Model.BitIO", "Corr.C20"]
     ctx.extra["rule"] = (
         "exhaustive: every byte string of 0..ceil(N/8) bytes with the first N bits enumerated (N=%d) x 21 block lengths "
-        "(none, -3..16; quick tier: model tie on every third length per file, rotating, oracle on all) x every primitive of both readers, observations (value, tell, bits_remaining, exception) checksummed "
+        "(none, -3..16; quick tier: model tie on every fourth length per file, rotating, oracle on all) x every primitive of both readers, observations (value, tell, bits_remaining, exception) checksummed "
         "and compared with the model; random op sequences for writer / BitstreamReader / decoder reader continuing after "
         "exceptions; structured read programs; integers up to 2^300.  A case is non-trivial when at least one real bit is "
         "read or written (distinct by input)." % ctx.pick(10, 14))
@@ -637,7 +637,7 @@ def run(ctx):
     nbits = ctx.pick(10, 14)
     files = exh_files(nbits)
     chunk = max(1, len(files) // 64)
-    chunks = [(files[i:i + chunk], i, ctx.pick(3, 1)) for i in range(0, len(files), chunk)]
+    chunks = [(files[i:i + chunk], i, ctx.pick(4, 1)) for i in range(0, len(files), chunk)]
     results, disagreements = [], []
     with concurrent.futures.ProcessPoolExecutor(max_workers=int(os.environ.get("VERIF_JOBS", "16"))) as ex:
         for res, bad, runs in ex.map(exh_worker, chunks):
@@ -658,7 +658,7 @@ def run(ctx):
 
     # ---- (2) random writer op sequences ----------------------------------------------------
     wcases, wmeta = [], []
-    for i in range(ctx.pick(700, 8000)):
+    for i in range(ctx.pick(500, 8000)):
         big = i % 5 == 0
         f0 = [] if rng.random() < 0.6 else rand_file(rng, 4)
         ops = gen_wops(rng, rng.randrange(1, 9 if big else 14), big=big)
@@ -672,7 +672,7 @@ def run(ctx):
 
     # ---- (3) random reader / decoder op sequences -------------------------------------------
     rcases, rmeta, dcases, dmeta = [], [], [], []
-    for i in range(ctx.pick(700, 8000)):
+    for i in range(ctx.pick(500, 8000)):
         f = rand_file(rng)
         ops = gen_rops(rng, rng.randrange(1, 12))
         rcases.append("(%s, [%s], %s)" % (clist(f), "; ".join(c_rop(o) for o in ops), cll(run_r(f, ops))))
@@ -689,7 +689,7 @@ def run(ctx):
 
     # ---- (4) structured programs: model tie for r_run/d_run, oracle for agreement ------------
     pcases, pmeta = [], []
-    for i in range(ctx.pick(600, 8000)):
+    for i in range(ctx.pick(450, 8000)):
         f = rand_file(rng, 8)
         neg = i % 6 == 0
         prog = gen_prog(rng, rng.randrange(1, 8), neg=neg)
@@ -715,7 +715,7 @@ def oracle(ctx):
     tob = bio.to_bit_offset
 
     # (a) round trip of plain write sequences through both readers, positions, lengths
-    for i in range(ctx.pick(1500, 20000)):
+    for i in range(ctx.pick(1000, 20000)):
         big = i % 3 == 0
         ops = gen_wops(rng, rng.randrange(1, 10), big=big, plain=True)
         f = io.BytesIO()
@@ -992,18 +992,78 @@ def _j(ops):
     return [[str(x) if isinstance(x, int) and abs(x) > 1 << 60 else x for x in op] for op in ops]
 
 
+def _unj(ops):
+    out = []
+    for op in ops:
+        op = [int(x) if isinstance(x, str) and x.lstrip("-").isdigit() else x for x in op]
+        out.append(tuple(op))
+    return out
+
+
 def replay(ctx, data):
     bio, OutOfRangeError, eg, dio, UEOS_, State, bitarray = I()
     inp = data["input"]
-    print("replaying", data["key"], inp)
-    if data["key"] == "readers-disagree":
-        prog = [tuple(op) for op in inp["prog"]]
+    key = data["key"]
+    print("replaying", key, inp)
+    tob = bio.to_bit_offset
+    bad = True
+    if key == "readers-disagree":
+        prog = [tuple(op[:2]) + ((list(op[2]),) if len(op) > 2 else ()) for op in inp["prog"]]
         a, b = prog_r(inp["file"], prog), prog_d(inp["file"], prog)
         print("BitstreamReader:", a)
         print("decoder reader :", b)
         bad = a != b
-        print("property violated on this input:", bad)
-        return 1 if bad else 0
-    print("observed:", data.get("observed"), "expected:", data.get("expected"))
-    print("re-run `./check C20` to re-evaluate this oracle clause (generators are seeded: VERIF_SEED=%s)" % data.get("seed"))
-    return 1
+    elif key in ("exp_golomb_length-differs", "signed_exp_golomb_length-differs"):
+        v = int(inp["value"])
+        f = io.BytesIO()
+        w = bio.BitstreamWriter(f)
+        if key.startswith("signed"):
+            w.write_sint(v)
+            exp = eg.signed_exp_golomb_length(v)
+        else:
+            w.write_uint(v)
+            exp = eg.exp_golomb_length(v)
+        print("bits written", tob(*w.tell()), "length function", exp)
+        bad = tob(*w.tell()) != exp
+    elif key == "out-of-range-not-rejected":
+        f = io.BytesIO()
+        w = bio.BitstreamWriter(f)
+        for op in _unj(inp["pre"]):
+            getattr(w, "write_" + op[0])(*_wargs(op, bitarray))
+        if inp["block"] is not None:
+            w.bounded_block_begin(inp["block"])
+        w.flush()
+        before = (f.getvalue(), w.tell(), w.bits_remaining)
+        op = _unj(inp["op"])[0]
+        try:
+            getattr(w, "write_" + op[0])(*_wargs(op, bitarray))
+            raised = None
+        except Exception as e:  # noqa
+            raised = type(e).__name__
+        w.flush()
+        after = (f.getvalue(), w.tell(), w.bits_remaining)
+        print("raised:", raised, "before:", before, "after:", after)
+        bad = raised != "OutOfRangeError" or before != after
+    elif key in ("roundtrip-bitstream-reader", "roundtrip-decoder-reader", "plain-write-raises", "reader-position", "write-position"):
+        ops = _unj(inp.get("ops", inp.get("op")))
+        f = io.BytesIO()
+        w = bio.BitstreamWriter(f)
+        bad = False
+        try:
+            for op in ops:
+                getattr(w, "write_" + op[0])(*_wargs(op, bitarray))
+            w.flush()
+            r = bio.BitstreamReader(io.BytesIO(f.getvalue()))
+            st = new_d(list(bytearray(f.getvalue())))
+            for op in ops:
+                exp, got, gd = _expected(op, bitarray), _rread(r, op), _dread(dio, st, op)
+                print(op[0], "expected", exp, "BitstreamReader", got, tob(*r.tell()), "decoder", gd, tob(*dio.tell(st)))
+                bad = bad or got != exp or gd != exp or tob(*r.tell()) != tob(*dio.tell(st))
+        except Exception as e:  # noqa
+            print("raised", repr(e))
+            bad = True
+    else:
+        print("observed:", data.get("observed"), "expected:", data.get("expected"))
+        print("re-run `./check C20` to re-evaluate this oracle clause (generators are seeded: VERIF_SEED=%s)" % data.get("seed"))
+    print("property violated on this input:", bad)
+    return 1 if bad else 0
